@@ -530,7 +530,9 @@ func coalesce(r YangRange) YangRange {
 		// r1 starts inside of cr[i]
 		// r1.Min cr[i].Max+1
 		// r1 is beyond cr[i]
-		if cr[i].Max.addQuantum(1).Less(r1.Min) {
+		// Nothing lies beyond the largest number, and adding to it would wrap.
+		atMax := !cr[i].Max.Negative && cr[i].Max.Value == math.MaxUint64
+		if !atMax && cr[i].Max.addQuantum(1).Less(r1.Min) {
 			// r1 starts after cr[i], this is a new range
 			i++
 			cr[i] = r1
